@@ -334,8 +334,23 @@ def run_replay(pid, cfg, path, work):
         print("PROP line=%d %s" % (ln, m))
     for e in r.errors:
         print("ERROR", e)
-    if r.prop:
+    # oracles that belong to another property, and failures that a listed finding's recogniser matches, are not violations here
+    findings = C.load_findings()
+    mine, known = [], []
+    for (t, ln, m) in r.prop:
+        own = re.search(r"\[(C\d\d)\] ", m)
+        if own and own.group(1) != pid:
+            continue
+        f = match_finding(findings, pid, m)
+        (known if f is not None else mine).append((m, f))
+    for key in sorted(set(f["key"] for (_, f) in known)):
+        f = [x for (_, x) in known if x["key"] == key][0]
+        print("KNOWN-FINDING: property=%s %s [%s]" % (pid, f["text"], f["key"]))
+    if mine or r.errors:
         print("VIOLATION property=%s replay=%s" % (pid, path))
         return 1
-    print("no property failure on replay")
+    if r.corr and not known:
+        print("VIOLATION property=%s replay=%s no-failing-input-found" % (pid, path))
+        return 1
+    print("no unlisted property failure on replay")
     return 0
